@@ -242,8 +242,9 @@ func check(c Case) error {
 type item struct {
 	it    *lang.TopItem
 	text  string
-	names []string // names this item defines
-	refs  map[int]bool
+	names []string     // names this item defines
+	refs  map[int]bool // earlier items this one needs (deleting them is not allowed while it is kept)
+	order map[int]bool // items that must stay before this one
 }
 
 var reIdent = regexp.MustCompile(`[A-Za-z_][A-Za-z0-9_]*`)
@@ -275,18 +276,26 @@ func defined(it *lang.TopItem) []string {
 
 func analyse(items []*lang.TopItem) []*item {
 	var out []*item
-	owner := map[string]int{}
+	owners := map[string][]int{} // a field name may be defined by several records
 	for i, it := range items {
-		x := &item{it: it, text: lang.ItemText(it, lang.Canonical{}), names: defined(it), refs: map[int]bool{}}
+		x := &item{it: it, text: lang.ItemText(it, lang.Canonical{}), names: defined(it), refs: map[int]bool{}, order: map[int]bool{}}
 		for _, n := range x.names {
-			owner[n] = i
+			owners[n] = append(owners[n], i)
 		}
 		out = append(out, x)
 	}
 	for i, x := range out {
 		for _, id := range reIdent.FindAllString(x.text, -1) {
-			if j, ok := owner[id]; ok && j != i {
-				x.refs[j] = true
+			for _, j := range owners[id] {
+				switch {
+				case j < i:
+					x.refs[j] = true // i needs the earlier item j
+					x.order[j] = true
+				case j > i:
+					// j defines a name i mentions but comes later (a second record with the same field
+					// names): i does not see it, and it must stay after i
+					out[j].order[i] = true
+				}
 			}
 		}
 	}
@@ -310,8 +319,10 @@ func TestHistories(t *testing.T) {
 	rapid.Check(t, func(rt *rapid.T) {
 		p := lang.Full
 		p.MaxUnits = 4
+		p.SharedFields = rapid.Bool().Draw(rt, "sharedFields")
 		g := lang.NewGen(rt, p)
 		pr := g.GenProgram()
+		moved := moveTwinsLater(rt, pr)
 		items := analyse(pr.Items)
 		n := len(items)
 		base := Run{Files: []File{{Path: "prog.fo", Content: fileText(items, seqInts(n))}}}
@@ -358,7 +369,7 @@ func TestHistories(t *testing.T) {
 						continue
 					}
 					ok := true
-					for j := range items[i].refs {
+					for j := range items[i].order {
 						if kept[j] && !placed[j] {
 							ok = false
 						}
@@ -447,6 +458,9 @@ func TestHistories(t *testing.T) {
 		if len(transform) == 0 {
 			transform = []string{"identity"}
 		}
+		if moved > 0 {
+			transform = append(transform, "base program declares a record with the same field names as an earlier one after functions that use such literals")
+		}
 		c := Case{Base: base, Variant: variant, Transform: transform}
 		// non-trivial: some kept function with a match or a generic instantiation has a changed prefix
 		nt := false
@@ -467,6 +481,58 @@ func TestHistories(t *testing.T) {
 		})
 		e.Check(rt, "history", c, func() error { return check(c) })
 	})
+}
+
+// moveTwinsLater moves the first of two records that have the same field names to a random later
+// position (before main), so that functions with unqualified literals of that field set sit between
+// the two declarations.
+func moveTwinsLater(rt *rapid.T, pr *lang.Program) int {
+	moved := 0
+	sig := func(it *lang.TopItem) string {
+		if len(it.Types) != 1 || it.Types[0].Rec == nil {
+			return ""
+		}
+		var fs []string
+		for _, f := range it.Types[0].Rec.Fields {
+			fs = append(fs, f.Name)
+		}
+		sort.Strings(fs)
+		return strings.Join(fs, ",")
+	}
+	for i := 0; i < len(pr.Items); i++ {
+		s1 := sig(pr.Items[i])
+		if s1 == "" {
+			continue
+		}
+		twin := -1
+		for j := i + 1; j < len(pr.Items); j++ {
+			if sig(pr.Items[j]) == s1 {
+				twin = j
+				break
+			}
+		}
+		if twin < 0 || !rapid.Bool().Draw(rt, "moveTwin") {
+			continue
+		}
+		// nothing may name the moved record itself (only its field names are shared)
+		re := regexp.MustCompile("\\b" + pr.Items[twin].Types[0].Rec.Name + "\\b")
+		used := false
+		for k, it := range pr.Items {
+			if k != twin && re.MatchString(lang.ItemText(it, lang.Canonical{})) {
+				used = true
+			}
+		}
+		last := len(pr.Items) - 2 // before main
+		if used || last <= twin {
+			continue
+		}
+		to := rapid.IntRange(twin+1, last).Draw(rt, "twinTo")
+		it := pr.Items[twin]
+		pr.Items = append(pr.Items[:twin], pr.Items[twin+1:]...)
+		pr.Items = append(pr.Items[:to], append([]*lang.TopItem{it}, pr.Items[to:]...)...)
+		moved++
+	}
+	return moved
 }
 
 func seqInts(n int) []int {
